@@ -27,7 +27,7 @@ ASSUMPTIONS = [
     "value/unit padding p2 is non-empty whenever the value is non-empty",
     "regex semantics: own bounded encoding of CPython re, validated exhaustively on short strings each run",
 ]
-WITNESS_TARGETS = ["time-pattern-selected", "regular-pattern-after-time-failed", "missing-period-form", "numeric-unit-with-blank"]
+WITNESS_TARGETS = ["time-pattern-selected", "regular-pattern-after-time-failed", "missing-period-form", "numeric-unit-with-blank", "line-parsed-after-a-line-of-the-other-form"]
 
 
 def _rejected_sym(i):
@@ -72,7 +72,18 @@ def tasks(tier):
                 continue
             out.append({"name": "%s/%s" % (fam, sec), "params": {"family": fam, "section": sec, "fcap": b["field_cap"], "pcap": b["pad_cap"]},
                         "weight": 3 if sec == "Parameter" else 1})
+    # the parse of a line does not depend on the lines parsed before it: a line of the other basic form
+    # (with / without a period before the colon) of the same section kind goes first
+    for fam in ("F1", "F2"):
+        for sec in ("Well", "Parameter"):
+            out.append({"name": "%s-after-%s/%s" % (fam, "periodless" if fam == "F1" else "regular", sec),
+                        "params": {"family": fam, "section": sec, "fcap": b["field_cap"], "pcap": b["pad_cap"], "prelude": [PRELUDE["F2" if fam == "F1" else "F1"][0]]}, "weight": 3})
     return out
+
+
+PRELUDE = {"F2": ("MUD WEIGHT : 1.25", {"name": "MUD WEIGHT", "unit": "", "value": "1.25", "descr": ""}),
+           "F1": ("STRT.M 1.5 : start", {"name": "STRT", "unit": "M", "value": "1.5", "descr": "start"})}
+PRELUDE_EXPECTED = {ln: e for ln, e in PRELUDE.values()}
 
 
 def build(fam, sec, fcap, pcap):
@@ -165,8 +176,17 @@ def harness(ns, params):
     def run():
         line, exp, inputs = build(fam, sec, fcap, pcap)
         c = core.ctx()
+        if params.get("prelude"):
+            inputs["prelude"] = list(params["prelude"])
         c.inputs = inputs
         apply_exclusions(inputs)
+        for pl in params.get("prelude", []):
+            try:
+                pd = ns.reader.read_header_line(pl, section_name=sec)
+                core.oblige("earlier-line-parses-as-usual", all(pd[k] == PRELUDE_EXPECTED[pl][k] for k in ("name", "unit", "value", "descr")))
+            except AttributeError:
+                core.oblige("earlier-line-parses", False)
+            core.witness("line-parsed-after-a-line-of-the-other-form")
         # spy on which pattern list was configured (vacuity guards)
         pats = ns.reader.configure_metadata_patterns(line, sec)
         if len(pats) == 2:
@@ -203,6 +223,13 @@ def replay(i):
 
     line = i["line"]
     exp = {"name": i["m"], "unit": i.get("u", ""), "value": i["v"], "descr": i.get("d", "")}
+    for pl in i.get("prelude", []):
+        try:
+            pd = R.read_header_line(pl, section_name=i["section"])
+        except AttributeError as e:
+            return {"ok": False, "detail": "earlier line %r raised %r" % (pl, e), "observed": "AttributeError"}
+        if {k: pd[k] for k in ("name", "unit", "value", "descr")} != PRELUDE_EXPECTED[pl]:
+            return {"ok": False, "detail": "earlier line %r parsed as %r" % (pl, pd), "observed": "prelude"}
     try:
         d = R.read_header_line(line, section_name=i["section"])
     except AttributeError as e:
